@@ -11,6 +11,14 @@ PROTOCOL_RE = re.compile(r"^%s" % PROTOCOL)
 WEB_PROTOCOL_RE = re.compile(r"^%s" % WEB_PROTOCOL, re.I)
 HTTP_PROTOCOL_RE = re.compile(r"^%s" % HTTP_PROTOCOL, re.I)
 
+# NOTE: non-ascii characters allowed in a hostname: from U+00A1 to the end of the
+# BMP, except the whitespace characters lying in that range (U+1680,
+# U+2000-U+200A, U+2028, U+2029, U+202F, U+205F & U+3000).
+UNICODE_HOST_CHARS = (
+    r"\u00a1-\u167f\u1681-\u1fff\u200b-\u2027\u202a-\u202e"
+    r"\u2030-\u205e\u2060-\u2fff\u3001-\uffff"
+)
+
 # Adapted from:
 #  - https://gist.github.com/dperini/729294
 #  - https://gist.github.com/pchc2005/b5f13e136a9c9bb2984e5b92802fc7c9
@@ -44,13 +52,13 @@ URL = (
     # r"(?:\.(?:[a-z\u00a1-\uffff0-9]-?)*[a-z\u00a1-\uffff0-9]+)*"
     r"(?:"
     r"(?:"
-    r"[a-z0-9\u00a1-\uffff]"
-    r"[a-z0-9\u00a1-\uffff_-]{0,62}"
+    r"[a-z0-9" + UNICODE_HOST_CHARS + r"]"
+    r"[a-z0-9" + UNICODE_HOST_CHARS + r"_-]{0,62}"
     r")?"
-    r"[a-z0-9\u00a1-\uffff]\."
+    r"[a-z0-9" + UNICODE_HOST_CHARS + r"]\."
     r")+"
     # TLD identifier name, may end with dot
-    r"(?:[a-z\u00a1-\uffff]{2,}\.?)"
+    r"(?:[a-z" + UNICODE_HOST_CHARS + r"]{2,}\.?)"
     r")"
     # port number (optional)
     r"(?::\d{2,5})?"
